@@ -4,6 +4,6 @@
 package wrapper
 
 //@ func WrapOrDie(cmd) ()
-//@   uses sappLen
+//@   uses sappLen, slsetLen
 //@   loop 1
 //@     invariant (= (sllen args) (sllen args@loop))
